@@ -432,23 +432,28 @@ def _diff_parse(cfg, fsmode, f, g, mode, text):
 
 
 def make_diff_sweep(rng, idx):
-    """Systematic part of the C04 search: for the next (snippet, elementary edit kind) pair in
-    enumeration order, the history S -> e_1(S) -> S -> e_2(S) -> S -> ... with the edit applied at
-    every line in turn (edit and undo), under one grammar version, plus a few seeded compound steps."""
+    """Systematic part of the C04 search: for the next snippet S in enumeration order the history
+    S -> e(S) -> S -> e'(S) -> S -> ... over every elementary edit kind, each applied at (up to four of)
+    the lines in turn (edit and undo), under one grammar version, plus a few seeded compound steps."""
     snips = corpus.SNIPPETS
     S = corpus.restyle(snips[idx % len(snips)], rng.choice(['\n', '\n', '\n', '\r', '\r\n']))
     k = idx // len(snips)
-    kind = corpus.ELEMENTARY[k % len(corpus.ELEMENTARY)]
-    version = corpus.VERSIONS[(k // len(corpus.ELEMENTARY) + idx) % len(corpus.VERSIONS)]
+    # One plan per snippet covers EVERY edit kind: short snippets at every line, longer ones at four
+    # seeded lines per kind (other lines in the next pass over the corpus).  Until round 9 a plan was one
+    # (snippet, kind) pair at all lines, kinds in the outer loop: a quick run covered all snippets under the
+    # first four kinds and nothing under the others.
+    kind = 'all'
+    version = corpus.VERSIONS[(k + idx) % len(corpus.VERSIONS)]
     nl = max(1, len(corpus.splitlines_cr(S)))
     cfg = {'files': ['src/mod.py'], 'grammars': [version], 'cdirs': 1, 'nproc': 1, 'gran': 0.0, 'tick': 0.0,
            'size_trigger': 600, 'min_survival': 600, 'bufsize': 8192, 'max_write': 0, 'max_read': 0, 'warmup': 3.0,
            'p_yield': 0.0, 'p_fault': 0.0, 'debug_diff': False, 'sweep': [idx % len(snips), kind]}
     texts = [S]
-    lines = list(range(nl)) if nl <= 14 else sorted(rng.sample(range(nl), 14))
-    for i in lines:
-        texts.append(corpus.elementary(S, i, kind))
-        texts.append(S)
+    for kd in corpus.ELEMENTARY:
+        lines = list(range(nl)) if nl <= 4 else sorted(rng.sample(range(nl), 4))
+        for i in lines:
+            texts.append(corpus.elementary(S, i, kd))
+            texts.append(S)
     cur = texts[-2] if len(texts) > 1 else S
     for _ in range(3):
         cur = corpus.elementary(cur, rng.randrange(64), rng.choice(corpus.ELEMENTARY))
